@@ -1,6 +1,7 @@
 import Mp4ff.Model.Cenc
 import Mp4ff.Lemmas.C07
 import Mp4ff.Props.C06b
+import Mp4ff.Expect.Transcribed
 /-!
 # C06 — decrypting what was encrypted restores the content
 Property theorems (proofs in `Mp4ff/Lemmas/C07.lean`, `CencCipher.lean`), over an abstract block cipher.
@@ -29,5 +30,10 @@ theorem cbcsCrypt_roundtrip (E D : Block → Block) (hED : ∀ b, b.length = 16 
     (hc : crypt % 16 = 0) (hs : skip % 16 = 0) :
     cbcsCrypt (cbcDec D) (cbcsCrypt (cbcEnc E) data iv crypt skip) iv crypt skip = data :=
   Cenc.cbcsCrypt_roundtrip E D hED hE data iv hiv hivb hd crypt skip hc hs
+
+/-- the Go functions the models of this property transcribe (committed table `spec/transcribed.json`, checked against
+    the current source by the extractor on every run) all still exist -/
+theorem model_sources_exist :
+    (["Cenc.lean", "Nalu.lean", "Protect.lean"] : List String).all Mp4ff.Expect.presentFor = true := by decide +kernel
 
 end Mp4ff.Cenc.C06
